@@ -48,7 +48,9 @@ Total == SumShares(Vals)
 Quorum23(sum, total) == sum > 0 /\ 3 * sum >= 2 * total
 InSnap(v) == Share[v] > 0
 
-\* a message: kind "ref" (no signatures, no estimate) or "slc" (signatures + estimate + fees)
+\* a message: kind "ref" (no signatures, no estimate), "slc" (SubmitLogicCall: signatures + estimate + fees) or
+\* "uv" (UpdateValset: signatures + estimate, the estimate is part of the signing bytes, no fees attached)
+Signable == {"slc", "uv"}
 NewMsg(kind) == [kind |-> kind, ev |-> [v \in Vals |-> None], sigs |-> {}, ests |-> [v \in Vals |-> None],
                  elected |-> 0, fees |-> FALSE, pad |-> kind = "ref", err |-> FALSE, added |-> height, asg |-> 0]
 \* version of the bytes to sign: changes when the elected estimate or the attached fees change
@@ -67,14 +69,14 @@ Same == UNCHANGED <<nextId, keyver, refHeight, jailed, height, removedBy, applie
 
 \* mode: "good" (valid over current bytes, current key) / "stale" (valid over an older version) / "badkey" / "garbage"
 Sign(v, id, mode) ==
-  LET ok == id \in DOMAIN msgs /\ v \notin jailed /\ mode = "good" /\ msgs[id].kind = "slc"
+  LET ok == id \in DOMAIN msgs /\ v \notin jailed /\ mode = "good" /\ msgs[id].kind \in Signable
             /\ ~\E s \in msgs[id].sigs : s.val = v \/ s.key = <<v, keyver[v]>>
   IN /\ IF ok THEN Upd(id, [msgs[id] EXCEPT !.sigs = @ \cup {[val |-> v, key |-> <<v, keyver[v]>>, ver |-> Version(msgs[id])]}]) /\ res' = "ok"
         ELSE UNCHANGED msgs /\ res' = "fail"
      /\ Same
 
 Estimate(v, id, x) ==
-  LET ok == id \in DOMAIN msgs /\ v \notin jailed /\ msgs[id].kind = "slc" /\ msgs[id].ests[v] = None /\ x >= 1
+  LET ok == id \in DOMAIN msgs /\ v \notin jailed /\ msgs[id].kind \in Signable /\ msgs[id].ests[v] = None /\ x >= 1
   IN /\ IF ok THEN Upd(id, [msgs[id] EXCEPT !.ests[v] = x]) /\ res' = "ok"
         ELSE UNCHANGED msgs /\ res' = "fail"
      /\ Same
@@ -104,7 +106,7 @@ ReRegister(v) ==
 \* the relayer is covered by the signing bytes, so collected signatures are discarded. Elected estimate, fees and
 \* submitted estimates stay. (No caller in the application today; kept in the model because the keeper exports it.)
 Reassign ==
-  /\ msgs' = [id \in DOMAIN msgs |-> IF msgs[id].kind = "slc" /\ ~msgs[id].pad /\ ~msgs[id].err
+  /\ msgs' = [id \in DOMAIN msgs |-> IF msgs[id].kind \in Signable /\ ~msgs[id].pad /\ ~msgs[id].err
                                       THEN [msgs[id] EXCEPT !.asg = @ + 1, !.sigs = {}] ELSE msgs[id]]
   /\ res' = "ok" /\ Same
 
@@ -120,9 +122,9 @@ SortPairs(S) == IF S = {} THEN <<>>     \* S: set of <<value, val>> pairs
 MedianOf(m) == LET w == SortPairs({<<m.ests[v], v>> : v \in Submitters(m)})  n == Len(w)  c == n \div 2 IN
                IF n % 2 = 0 THEN (w[c] + w[c + 1]) \div 2 ELSE w[c + 1]
 ElectOne(m) ==
-  IF m.kind # "slc" \/ m.elected # 0 \/ Submitters(m) = {} THEN m
+  IF m.kind \notin Signable \/ m.elected # 0 \/ Submitters(m) = {} THEN m
   ELSE IF ~Quorum23(SumShares({v \in Submitters(m) : InSnap(v)}), Total) THEN m
-  ELSE [m EXCEPT !.elected = MedianOf(m), !.fees = TRUE, !.sigs = {}]     \* SetElectedGasEstimate clears, AttachFees replaces the body
+  ELSE [m EXCEPT !.elected = MedianOf(m), !.fees = (m.kind = "slc"), !.sigs = {}]     \* SetElectedGasEstimate clears, AttachFees replaces the body
 
 \* evidence tally: winner value if snapshot members holding 2/3 of the shares gave that value as their latest evidence
 Backers(m, e) == {v \in Vals : InSnap(v) /\ m.ev[v] = e}
@@ -175,7 +177,7 @@ EndBlock ==
   /\ msgs' = s.msgs /\ refHeight' = s.refHeight /\ removedBy' = s.removedBy /\ applied' = s.applied /\ jailed' = s.jailed
   /\ res' = "eb" /\ UNCHANGED <<nextId, keyver, height>>
 
-Next == \/ (nextId <= MaxMsgs /\ \E k \in {"ref", "slc"} : Put(k))
+Next == \/ (nextId <= MaxMsgs /\ \E k \in {"ref", "slc", "uv"} : Put(k))
         \/ \E v \in Vals, id \in 1..MaxMsgs, mode \in {"good", "stale", "badkey", "otherchain", "garbage"} : Sign(v, id, mode)
         \/ \E v \in Vals, id \in 1..MaxMsgs, x \in EstValues : Estimate(v, id, x)
         \/ \E v \in Vals, id \in 1..MaxMsgs, e \in EvValues : Evidence(v, id, e)
